@@ -1,5 +1,6 @@
 import Invoke.Lemmas.ParserSituations
 import Invoke.Lemmas.ParserSpecs
+import Invoke.Lemmas.ParserConverse
 import Invoke.Generated.Parser
 /-! # C07 — parsing is total, side-effect free and fails only with the documented parse error
 
@@ -139,6 +140,105 @@ theorem error_ambiguous_after_optional (m : M) (c : Ctx) (a : Arg) (tok : Tok) (
     handle m tok = .error (.parse "ambiguous" tok) :=
   handle_ambiguous m c a tok hst hc hf hi hfa ht ho hr hamb
 
+/-! ## … and ONLY in the documented situations (converse direction of `error_iff_situation`)
+
+`Reach m0 m`: `m` is one of the machine states the parse loop goes through (start machine, its state entry, every
+`handle` step); `ReachEnd` adds the machine at `finish`.  The situations are predicates on the machine at the moment
+of the failing step: `SitNoIdea` (unknown token), `SitNeeded` (value flag pending without a value), `SitMissing`
+(current context lacks positionals when a state is entered: end of input, task switch, unknown token),
+`SitAmbig` (optional-value flag pending and the token could be a positional value or a task name), `SitInvalid`
+(non-integer for an int-typed argument; the fifth kind, from the fix for DESIGN §4 #6). -/
+
+/-- ERROR ⇒ SITUATION (all kinds at once).  For a well-formed specification, a `ParseError` of kind `k` is raised by a
+    reachable machine state in which the situation of kind `k` holds: at a token (`handle` fails there) or at a state
+    entry (start / end of the command line). -/
+theorem error_implies_situation (initial : Option Ctx) (registry : List Ctx) (ign : Bool) (argv : List Tok) (k : String) (d : Tok)
+    (hP : specWF initial registry = true) (h : parseArgv initial registry ign argv = .error (.parse k d)) :
+    (∃ m tok, Reach { initial := initial, cur := none, registry := registry, ignoreUnknown := ign } m ∧
+        handle m tok = .error (.parse k d) ∧ StepSituation m tok k d) ∨
+    (∃ m, ReachEnd { initial := initial, cur := none, registry := registry, ignoreUnknown := ign } m ∧
+        enter m = .error (.parse k d) ∧
+        ((k = "needed-value" ∧ SitNeeded m d) ∨ (k = "missing-positional" ∧ SitMissing m d))) :=
+  parse_error_situation initial registry ign argv k d hP h
+
+/-- (c⁻¹) "did not receive required positional arguments" ⇒ at the end of input, at a task switch or when an unknown token
+    was about to be stored, the current context had unfilled positionals (`d` is its name) -/
+theorem error_missing_positionals_converse (initial : Option Ctx) (registry : List Ctx) (ign : Bool) (argv : List Tok) (d : Tok)
+    (hP : specWF initial registry = true)
+    (h : parseArgv initial registry ign argv = .error (.parse "missing-positional" d)) :
+    ∃ m, ReachEnd { initial := initial, cur := none, registry := registry, ignoreUnknown := ign } m ∧ SitMissing m d := by
+  rcases parse_error_situation initial registry ign argv _ d hP h with ⟨m, tok, hr, _, hs⟩ | ⟨m, hr, _, hs⟩
+  · rcases hs with ⟨hk, _⟩ | ⟨hk, _⟩ | ⟨_, hs⟩ | ⟨hk, _⟩ | ⟨hk, _⟩
+    · exact absurd hk (by decide)
+    · exact absurd hk (by decide)
+    · exact ⟨m, Or.inl hr, hs⟩
+    · exact absurd hk (by decide)
+    · exact absurd hk (by decide)
+  · rcases hs with ⟨hk, _⟩ | ⟨_, hs⟩
+    · exact absurd hk (by decide)
+    · exact ⟨m, hr, hs⟩
+
+/-- (b⁻¹) "needed value and was not given one" ⇒ a value-requiring, non-optional flag was pending without a value when the
+    next flag / task name / unknown token arrived or the command line ended (`d` is the flag's name) -/
+theorem error_needed_value_converse (initial : Option Ctx) (registry : List Ctx) (ign : Bool) (argv : List Tok) (d : Tok)
+    (hP : specWF initial registry = true)
+    (h : parseArgv initial registry ign argv = .error (.parse "needed-value" d)) :
+    ∃ m, ReachEnd { initial := initial, cur := none, registry := registry, ignoreUnknown := ign } m ∧ SitNeeded m d := by
+  rcases parse_error_situation initial registry ign argv _ d hP h with ⟨m, tok, hr, _, hs⟩ | ⟨m, hr, _, hs⟩
+  · rcases hs with ⟨hk, _⟩ | ⟨_, hs⟩ | ⟨hk, _⟩ | ⟨hk, _⟩ | ⟨hk, _⟩
+    · exact absurd hk (by decide)
+    · exact ⟨m, Or.inl hr, hs⟩
+    · exact absurd hk (by decide)
+    · exact absurd hk (by decide)
+    · exact absurd hk (by decide)
+  · rcases hs with ⟨_, hs⟩ | ⟨hk, _⟩
+    · exact ⟨m, hr, hs⟩
+    · exact absurd hk (by decide)
+
+/-- (d⁻¹) "is ambiguous when given after an optional-value flag" ⇒ the token `d` arrived while an optional-value flag had no
+    value yet, and `d` names a task or the context still lacks positionals -/
+theorem error_ambiguous_converse (initial : Option Ctx) (registry : List Ctx) (ign : Bool) (argv : List Tok) (d : Tok)
+    (hP : specWF initial registry = true)
+    (h : parseArgv initial registry ign argv = .error (.parse "ambiguous" d)) :
+    ∃ m, Reach { initial := initial, cur := none, registry := registry, ignoreUnknown := ign } m ∧ SitAmbig m d := by
+  rcases parse_error_situation initial registry ign argv _ d hP h with ⟨m, tok, hr, _, hs⟩ | ⟨m, hr, _, hs⟩
+  · rcases hs with ⟨hk, _⟩ | ⟨hk, _⟩ | ⟨hk, _⟩ | ⟨_, hd, hs⟩ | ⟨hk, _⟩
+    · exact absurd hk (by decide)
+    · exact absurd hk (by decide)
+    · exact absurd hk (by decide)
+    · subst hd; exact ⟨m, hr, hs⟩
+    · exact absurd hk (by decide)
+  · rcases hs with ⟨hk, _⟩ | ⟨hk, _⟩ <;> exact absurd hk (by decide)
+
+/-- (a⁻¹) "No idea what … is" ⇒ the token `d` was not a flag of the current context, no value was awaited, no positional slot
+    was open, it names no task and is no core flag (and unknown tokens are not being collected) -/
+theorem error_unknown_token_converse (initial : Option Ctx) (registry : List Ctx) (ign : Bool) (argv : List Tok) (d : Tok)
+    (hP : specWF initial registry = true)
+    (h : parseArgv initial registry ign argv = .error (.parse "no-idea" d)) :
+    ∃ m, Reach { initial := initial, cur := none, registry := registry, ignoreUnknown := ign } m ∧ SitNoIdea m d := by
+  rcases parse_error_situation initial registry ign argv _ d hP h with ⟨m, tok, hr, _, hs⟩ | ⟨m, hr, _, hs⟩
+  · rcases hs with ⟨_, hd, hs⟩ | ⟨hk, _⟩ | ⟨hk, _⟩ | ⟨hk, _⟩ | ⟨hk, _⟩
+    · subst hd; exact ⟨m, hr, hs⟩
+    · exact absurd hk (by decide)
+    · exact absurd hk (by decide)
+    · exact absurd hk (by decide)
+    · exact absurd hk (by decide)
+  · rcases hs with ⟨hk, _⟩ | ⟨hk, _⟩ <;> exact absurd hk (by decide)
+
+/-- (fifth kind) "got invalid value" ⇒ the token `d` is not an integer and was due to an int-typed argument -/
+theorem error_invalid_value_converse (initial : Option Ctx) (registry : List Ctx) (ign : Bool) (argv : List Tok) (d : Tok)
+    (hP : specWF initial registry = true)
+    (h : parseArgv initial registry ign argv = .error (.parse "invalid-value" d)) :
+    ∃ m, Reach { initial := initial, cur := none, registry := registry, ignoreUnknown := ign } m ∧ SitInvalid m d := by
+  rcases parse_error_situation initial registry ign argv _ d hP h with ⟨m, tok, hr, _, hs⟩ | ⟨m, hr, _, hs⟩
+  · rcases hs with ⟨hk, _⟩ | ⟨hk, _⟩ | ⟨hk, _⟩ | ⟨hk, _⟩ | ⟨_, hd, hs⟩
+    · exact absurd hk (by decide)
+    · exact absurd hk (by decide)
+    · exact absurd hk (by decide)
+    · exact absurd hk (by decide)
+    · subst hd; exact ⟨m, hr, hs⟩
+  · rcases hs with ⟨hk, _⟩ | ⟨hk, _⟩ <;> exact absurd hk (by decide)
+
 /-! ## Non-vacuity and the situations on a concrete parser (evaluated by the kernel) -/
 
 def exCtx (name : Option Tok) (aliases : List Tok) (specs : List ArgSpec) : Ctx :=
@@ -212,6 +312,23 @@ def pendingOptional (tok : Tok) : Except Err M → Bool
       | _, _ => false)
   | .error _ => false
 example : pendingOptional "u".toList (runBody (some exCore) exReg false (bodyOf (exArgv ["t", "val", "--opt"]))) = true := by decide
+def errOf : Except Err PResult → Option Err | .error e => some e | .ok _ => none
+theorem eq_error_of_errOf {r : Except Err PResult} {e : Err} (h : errOf r = some e) : r = .error e := by
+  cases r with
+  | error e' => simp [errOf] at h; rw [h]
+  | ok x => simp [errOf] at h
+
+/-- the converse theorems applied to concrete failing parses (their hypotheses are satisfiable) -/
+example : ∃ m, ReachEnd { initial := some exCore, cur := none, registry := exReg, ignoreUnknown := false } m ∧ SitMissing m "t".toList :=
+  error_missing_positionals_converse (some exCore) exReg false (exArgv ["t", "-f"]) _ (by decide) (eq_error_of_errOf (by decide))
+example : ∃ m, ReachEnd { initial := some exCore, cur := none, registry := exReg, ignoreUnknown := false } m ∧ SitNeeded m "name".toList :=
+  error_needed_value_converse (some exCore) exReg false (exArgv ["t", "val", "--name"]) _ (by decide) (eq_error_of_errOf (by decide))
+example : ∃ m, Reach { initial := some exCore, cur := none, registry := exReg, ignoreUnknown := false } m ∧ SitAmbig m "u".toList :=
+  error_ambiguous_converse (some exCore) exReg false (exArgv ["t", "val", "--opt", "u"]) _ (by decide) (eq_error_of_errOf (by decide))
+example : ∃ m, Reach { initial := some exCore, cur := none, registry := exReg, ignoreUnknown := false } m ∧ SitNoIdea m "nope".toList :=
+  error_unknown_token_converse (some exCore) exReg false (exArgv ["nope", "t", "val"]) _ (by decide) (eq_error_of_errOf (by decide))
+example : ∃ m, Reach { initial := some exCore, cur := none, registry := exReg, ignoreUnknown := false } m ∧ SitInvalid m "abc".toList :=
+  error_invalid_value_converse (some exCore) exReg false (exArgv ["-T", "abc"]) _ (by decide) (eq_error_of_errOf (by decide))
 /-- no fuel exhaustion on a token that is split into many pieces -/
 example : (procTok' 9 { initial := some exCore, cur := none, registry := exReg, ignoreUnknown := false } "-eeeeee".toList).isSome = true :=
   no_fuel_exhaustion 9 _ _ (by decide)
